@@ -119,8 +119,8 @@ class Selection(Contract):
 
     def cases(self, tier):
         n = 3 if tier == "quick" else 4
-        for kinds in itertools.product(self.KINDS, repeat=n):
-            if tier == "quick" and hash(kinds) % 3:
+        for idx, kinds in enumerate(itertools.product(self.KINDS, repeat=n)):
+            if tier == "quick" and idx % 3:
                 continue
             yield {"kinds": kinds}
         yield {"kinds": ("free", "expr", "fixed", "nonneg", "bounded")}
